@@ -291,8 +291,10 @@ def run(ctx):
                 user[:40], pw[:24], (user.split(b"@", 1)[0] if e["name"] == "cut-at-@" else user)[:40]))
         elif want and not got and e["limits"] == "inside":
             ctx.violation("C04", "denied-although-store-accepts:" + key, "user %r password %r..: store accepts, frontend denies" % (user[:40], pw[:24]))
+    import clifam
+    ncli = clifam.replay(ctx, "C04", only=lambda c: c["cmd"] == "authenticate")
     cov = ctx.coverage
-    cov.update({"states": res["distinct"], "transitions": res["generated"], "traces_validated_against_impl": n, "evaluations": n,
+    cov.update({"states": res["distinct"] + cov.get("states", 0), "transitions": res["generated"], "traces_validated_against_impl": n, "evaluations": n,
                 "distinct_nontrivial": len(cases), "accepted": accepts, "concurrent_logins": nburst, "history_steps": nhist,
                 "rule": "every (transport, user-name class, password class) case of Frontends is instantiated with real bytes and submitted to "
                         "the running agent binary (saslauthd socket, HTTP basic-auth, JSON API, LDAP simple bind, CLI); the expected verdict is "
